@@ -185,7 +185,36 @@ class AtomicAnalysis:
     if not good:
       return False
     reach = ff.cfg.reachable_from([wn], avoid=good, labels_excluded=('exc', 'raise', 'reraise'))
-    return ff.cfg.exit.id not in reach
+    if ff.cfg.exit.id in reach:
+      return False
+    return self.closed_before(ff, w, good)
+
+  def closed_before(self, ff: FuncFlow, w: Writer, rename_ids) -> bool:
+    """The writer's file object is closed before the rename: a writer used as a `with` item must have left its block
+    (buffered data is flushed on close; renaming inside the block publishes an incomplete file)."""
+    m = ff.module
+    p = m.parent_of.get(w.call)
+    with_stmt = None
+    if isinstance(p, ast.withitem):
+      with_stmt = m.parent_of.get(p)
+    if with_stmt is None:
+      # writer call nested in another call that is the with item: with Builder(path) as b / with closing(open(..))
+      q = p
+      for _ in range(3):
+        if isinstance(q, ast.withitem):
+          with_stmt = m.parent_of.get(q)
+          break
+        q = m.parent_of.get(q) if q is not None else None
+    if with_stmt is None:
+      return True
+    for n in ff.cfg.nodes:
+      if n.id in rename_ids and n.ast is not None:
+        x = n.ast
+        while x is not None:
+          if x is with_stmt:
+            return False
+          x = m.parent_of.get(x)
+    return True
 
 
 def split_suffix(ff: FuncFlow, e: ast.AST) -> Tuple[Optional[ast.AST], str]:
